@@ -145,6 +145,24 @@ def execute(wd, sc):
     if stats is not None:
         wd.probes["c05.run_completed"] += 1
         nlev = len(stats.mlmc_results.Nl)
+        # ---- the RETURNED results object (what the user reads), against the complete ledger ---------------
+        res = stats.mlmc_results
+        final = {"Nl": [int(x) for x in np.asarray(res.Nl).tolist()], "ledger_len": len(ledger), "levels": [],
+                 "sum_cost": [float(x) for x in np.asarray(getattr(res, "_sum_cost", np.zeros(nlev))).tolist()]}
+        for lvl in range(nlev):
+            try:
+                f_ = np.array(stats.simulation_payoff_with_fine_process(level=lvl, no_control_variates=True), dtype=float)
+                c_ = np.array(stats.simulation_payoff_with_coarse_process(level=lvl, no_control_variates=True), dtype=float)
+            except Exception:
+                f_, c_ = None, None
+            final["levels"].append((f_, c_))
+        try:
+            final["results"] = {k: np.array(getattr(res, k), dtype=float).tolist() for k in
+                                ("ml", "vl", "cl", "mean_level_l", "var_level_l", "kurtosis")}
+            final["results"]["cost"] = float(res.cost)
+        except Exception as e:
+            errors.append({"kind": type(e).__name__, "msg": "reading the returned results: " + str(e)[:120]})
+        check_snapshot(sc, ledger, final, V, where="returned results")
         # ---- price = sum over levels of mean(fine - coarse) over the ledger samples --------------------
         tot = 0.0
         complete = True
